@@ -120,3 +120,96 @@ def _ufa_rule(ins, params):
 
 
 I.CUSTOM_RULES["uf_array"] = _ufa_rule
+
+
+# ------------------------------------------------------------------ eigh stub (DESIGN.md 2.3)
+EIGH_SIGNS = None  # optional per-column sign pattern applied to the stub's eigenvectors (column-sign obligation)
+EIGH_CONTRACT = None  # (g, base log) while executing the g-transformed run
+EIGH_CONTRACT_START = [0]
+EIGH_LOG = []  # one entry per eigh eqn executed symbolically: dict(cov=object array (..,D,D), vecs=..., vals=...)
+
+
+def _eigh_rule(ins, params):
+    """Symmetric eigendecomposition as uninterpreted functions of the matrix entries.  What is assumed about it is
+    added per obligation by eigh_covariance_assumption / checked by the column-sign obligation; nothing else."""
+    (c,) = ins
+    c = I.lift(c, "real")
+    a = c.a
+    D = a.shape[-1]
+    lead = a.shape[:-2]
+    vecs = np.empty(lead + (D, D), dtype=object)
+    vals = np.empty(lead + (D,), dtype=object)
+    for ix in np.ndindex(*lead):
+        args = tuple(a[ix].reshape(-1))
+        for i in range(D):
+            vals[ix + (i,)] = S.uf(f"eigval{D}_{i}", args)
+            for j in range(D):
+                vecs[ix + (i, j)] = S.uf(f"eigvec{D}_{i}{j}", args)
+        if EIGH_CONTRACT is not None:
+            # the stub's contract applied by rewriting: if this matrix is (as a polynomial identity) g C g^T for the matrix C of
+            # the corresponding eigh call of the base run, return (eigvals(C), g . eigvecs(C)); otherwise nothing is granted
+            g, blog = EIGH_CONTRACT
+            n = len(EIGH_LOG) - EIGH_CONTRACT_START[0]
+            if n < len(blog):
+                b = blog[n]
+                g_ = np.asarray(g)
+                okc = True
+                for i in range(D):
+                    for j in range(D):
+                        acc = S.ZERO
+                        for p_ in range(D):
+                            for q_ in range(D):
+                                if g_[i, p_] and g_[j, q_]:
+                                    acc = acc + b["cov"][p_, q_] * int(g_[i, p_] * g_[j, q_])
+                        okc = okc and (a[ix][i, j].t == acc.t)
+                if okc:
+                    for i in range(D):
+                        vals[ix + (i,)] = b["vals"][i]
+                        for j in range(D):
+                            acc = S.ZERO
+                            for p_ in range(D):
+                                if g_[i, p_]:
+                                    acc = acc + b["vecs"][p_, j] * int(g_[i, p_])
+                            vecs[ix + (i, j)] = acc
+                    I.STATS["eigh_contract_applied"] += 1
+                else:
+                    I.STATS["eigh_contract_premise_failed"] += 1
+        if EIGH_SIGNS is not None:
+            for j in range(D):
+                if EIGH_SIGNS[j] < 0:
+                    for i in range(D):
+                        vecs[ix + (i, j)] = -vecs[ix + (i, j)]
+        EIGH_LOG.append({"cov": a[ix], "vecs": vecs[ix], "vals": vals[ix]})
+    I.STATS["eigh_stub_applications"] += 1
+    return [Sym(vecs, "real"), Sym(vals, "real")]
+
+
+I.CUSTOM_RULES["eigh"] = _eigh_rule
+
+
+def eigh_covariance_assumption(base, other, g):
+    """Instance of the stub's contract for the matrices that actually occur:
+         C' = g C g^T  (entrywise)   ==>   eigenvalues' = eigenvalues  and  eigenvectors' = g . eigenvectors
+    asserted as an IMPLICATION: if the repo computes the covariance wrongly the premise is false and nothing is granted."""
+    g = np.asarray(g)
+    D = g.shape[0]
+    C, Cp = base["cov"], other["cov"]
+    gC = np.empty((D, D), dtype=object)
+    for i in range(D):
+        for j in range(D):
+            acc = S.ZERO
+            for a in range(D):
+                for b in range(D):
+                    if g[i, a] and g[j, b]:
+                        acc = acc + C[a, b] * int(g[i, a] * g[j, b])
+            gC[i, j] = acc
+    prem = S.band(*[S.eq(Cp[i, j], gC[i, j]) for i in range(D) for j in range(D)])
+    concl = [S.eq(other["vals"][i], base["vals"][i]) for i in range(D)]
+    for i in range(D):
+        for j in range(D):
+            acc = S.ZERO
+            for a in range(D):
+                if g[i, a]:
+                    acc = acc + base["vecs"][a, j] * int(g[i, a])
+            concl.append(S.eq(other["vecs"][i, j], acc))
+    return S.bor(S.bnot(prem), S.band(*concl)), prem
